@@ -8,7 +8,9 @@ from vlib import coqlit as L
 PID = "C18"
 PROP_FILES = ["Prop"]
 EXTRA_COQ_DIRS = ["C08"]
-ALLOWED_AXIOMS = []
+# Flocq's binary32/binary64 formats are defined over Coq's axiomatic reals (only the f/d theorems depend on them)
+ALLOWED_AXIOMS = [r"ClassicalDedekindReals\.sig_not_dec$", r"ClassicalDedekindReals\.sig_forall_dec$",
+                  r"FunctionalExtensionality\.functional_extensionality_dep$", r"Classical_Prop\.classic$"]
 RULE = ("chunks: size 1..9 x length 0..20 x format b h i f d x byte order None/</> x both strategies, sample values "
         "include the extremes of each width and non-representable doubles for 'f'; non-trivial = at least one full "
         "chunk and a padded tail; wav: every width x mono/stereo x keep, samples include the extremes; files written "
